@@ -100,6 +100,9 @@ func buildFlattenRuns(tier string, seed int64, scratch string, which string) ([]
 	for i := 0; i < nb; i++ {
 		g := NewGen(seed*1000003+int64(i)*17+5, flattenGenOpts(i))
 		b := g.GenBundle()
+		if g.o.AllKeywords {
+			b.Feat.WPlus = true // keywords outside Swagger 2.0: the run counts for C09 and for step conformance only
+		}
 		c := &Case{Tid: fmt.Sprintf("b%d", i), Source: "gen", Seed: seed*1000003 + int64(i)*17 + 5, Bundle: b, Names: g.Names.ToConcrete, RefStyle: 0}
 		if err := c.Materialize(filepath.Join(scratch, c.Tid)); err != nil {
 			errs = append(errs, err.Error())
